@@ -599,6 +599,40 @@ pub fn main(a: &vcommon::Args) {
             println!("runs={} events={}", out.run, out.events);
             out.finish();
         }
+        // every op sequence of length n over a 15-letter alphabet (wildcard operands), after one send
+        "exhaustive" => {
+            let n = a.num(1) as usize;
+            let mut out = Out::create(a.get(2));
+            let alpha: Vec<Value> = vec![
+                json!({"a": "send", "p": 0}),
+                json!({"a": "dial", "p": -1, "j": 0, "r": "ok"}),
+                json!({"a": "dial", "p": -1, "j": 0, "r": "fail"}),
+                json!({"a": "dial", "p": -1, "j": 0, "r": "deny"}),
+                json!({"a": "inconn", "p": 0, "j": 1, "r": "ok"}),
+                json!({"a": "inconn", "p": 0, "j": 1, "r": "deny"}),
+                json!({"a": "neg", "c": -1, "i": 0, "r": "ok"}),
+                json!({"a": "neg", "c": -1, "i": 0, "r": "unsup"}),
+                json!({"a": "remote", "c": -1, "i": 0, "r": "respond"}),
+                json!({"a": "remote", "c": -1, "i": 0, "r": "reset"}),
+                json!({"a": "inb", "c": -1, "i": 0, "r": "req"}),
+                json!({"a": "app", "i": 0, "r": "respond"}),
+                json!({"a": "app", "i": 0, "r": "drop"}),
+                json!({"a": "closing", "c": -1, "i": 0}),
+                json!({"a": "close", "c": -1, "i": 0}),
+            ];
+            let k = alpha.len();
+            for code in 0..k.pow(n as u32) {
+                let mut c = code;
+                let mut ops = vec![json!({"a": "send", "p": 0})];
+                for _ in 0..n {
+                    ops.push(alpha[c % k].clone());
+                    c /= k;
+                }
+                run(&mut out, &json!({"to": 60000, "ops": ops}), &peers);
+            }
+            println!("runs={} events={}", out.run, out.events);
+            out.finish();
+        }
         "random" => {
             let seed = a.num(1);
             let runs = a.num(2);
